@@ -577,7 +577,9 @@ def oracle_C02(cmds, impl, model, stats: Stats):
             stats.note(m["tree_text"], False, "indeterminate" if det != "T" else "not-key-determined")
             continue
         rows0, rows1, want = field(il, "rows0"), field(il, "rows1"), field(sem, "rows")
-        stats.note(m["tree_text"] + rows0, len(kinds - {"leaf", "select"}) >= 2 and rows0 != "[]", *tags)
+        # does the conformed tree meet the decidable hypothesis of the compile-correctness theorem (Props/C02)?
+        hyp = "theorem-hypothesis:structReady" if field(ml, "ready") == "T" else "theorem-hypothesis:not-met"
+        stats.note(m["tree_text"] + rows0, len(kinds - {"leaf", "select"}) >= 2 and rows0 != "[]", hyp, *tags)
         for label, got in (("default scan order", rows0), ("reversed scan order", rows1)):
             if _ms(got) != _ms(want):
                 kind = "sql-rows-differ-from-direct-evaluation"
@@ -1205,6 +1207,11 @@ def oracle_C10(cmds, impl, model, stats: Stats):
                     go(x[-1])
 
             go(tree)
+            # a cached marker whose payload object IS a leaf's row container (the processor attached the
+            # leaf's own payload): reading that cache is an iteration of the leaf, not a re-evaluation
+            sh = (field(il, "shared") or "[]").strip("[]")
+            for leaf in (sh.split(",") if sh else []):
+                allowed[leaf] += 1
             t = field(il, "pulls_exec").strip("[]")
             pe = Counter(t.split(",")) if t else Counter()
             kinds = {kd for kd, _ in tree_nodes(tree)}
